@@ -541,7 +541,8 @@ impl Fx {
                         continue;
                     }
                     // a sender has no reason to name an offset it has not reached in a frame without data
-                    let off = if l == 0 && !*fin { m.largest } else { off };
+                    // (nor does the history rely on how a final size announced by an empty frame is accounted)
+                    let off = if l == 0 { m.largest } else { off };
                     let end = off + l;
                     let raw = wire::stream(self.raw_sid(k), off, &vec![0xa5; l as usize], *fin);
                     self.legit(raw, "STREAM")?;
